@@ -22,6 +22,10 @@ for d, r in res.items():
     own = m.get('property', d.split('-')[0])[:3] if d.startswith('R') else d.split('-')[0]
     own_caught += r.get(own) == 'CAUGHT'
     any_caught += any(v == 'CAUGHT' for v in r.values())
-tail = TAIL_EXTRA = f"\n\n{len(res)} changes; caught by the quick tier of the property's own check: {own_caught}; caught by some quick check: {any_caught}.\n"
-open('/verif/seeded/README.md', 'w').write(head + '\n'.join(rows) + tail)
+tail = f"\n\n{len(res)} changes; caught by the quick tier of the property's own check: {own_caught}; caught by some quick check: {any_caught}.\n"
+
+NOTE = """
+`prompts/` holds the prompt template of rounds 1/2 and one example prompt of each later round (the sub-agents got only the property text(s), a scratch worktree and a list of earlier changes to avoid - nothing from /verif). Development aids in `tools/`: `run_seeded.sh` / `run_benign.sh` apply a patch to `/repo`, run the checks and revert; `run_seeded_dev2.sh` / `run_benign_dev.sh` / `import_rN.sh` do the same against a *copy* of the harness whose path dependency points at a scratch worktree (used while `/repo` was occupied by a soak; the copies live under /tmp and are not needed by any registered command).
+"""
+open('/verif/seeded/README.md', 'w').write(head + '\n'.join(rows) + tail + NOTE)
 print(len(res), own_caught, any_caught)
